@@ -24,8 +24,9 @@ CONSTANTS MaxB,        \* number of source entities 1..MaxB
           MaxRetriesSet,
           Mode         \* "log" | "rerun"
 
-VARIABLES n, fail, m, page, retries, okAfter   \* the case
-cvars == <<n, fail, m, page, retries, okAfter>>
+VARIABLES n, fail, m, page, retries, okAfter,   \* the case
+          kill, jtype    \* reRun cases: the run is killed inside its first sink call; job type of the trigger
+cvars == <<n, fail, m, page, retries, okAfter, kill, jtype>>
 
 \* --- log handler ---------------------------------------------------------
 \* scan entities 1..n in order; st = [del, rep, cnt, stop]
@@ -48,16 +49,20 @@ StopAt == IF Result.stop THEN Result.rep[Len(Result.rep)] ELSE n + 1
 Token == IF Result.stop THEN ((StopAt - 1) \div page) * page ELSE n
 
 \* --- reRun handler -------------------------------------------------------
-\* the sink rejects everything during the first okAfter executions (okAfter > retries + 1: never recovers)
-Executions == IF okAfter <= retries THEN okAfter + 1 ELSE retries + 1
-FinalOutcome == IF okAfter <= retries THEN "ok" ELSE "failed"
+\* the sink rejects everything during the first okAfter executions (okAfter > retries + 1: never recovers).
+\* A run that is killed (cancelled while the sink handles its first batch; the source has more pages) stops at
+\* the next interrupt check and is NOT executed again, whatever the handler allows: one sink call in total.
+Executions == IF kill THEN 1 ELSE IF okAfter <= retries THEN okAfter + 1 ELSE retries + 1
+FinalOutcome == IF kill THEN "killed" ELSE IF okAfter <= retries THEN "ok" ELSE "failed"
 
 Init ==
   /\ n \in 1..MaxB
   /\ page \in PageSizes
   /\ IF Mode = "log"
-       THEN /\ fail \in SUBSET (1..n) /\ m \in 0..n /\ retries = 0 /\ okAfter = 0
-       ELSE /\ fail = {} /\ m = 0 /\ retries \in MaxRetriesSet /\ okAfter \in 0..3 /\ n = 1
+       THEN /\ fail \in SUBSET (1..n) /\ m \in 0..n /\ retries = 0 /\ okAfter = 0 /\ kill = FALSE /\ jtype = "incremental"
+       ELSE /\ fail = {} /\ m = 0 /\ retries \in MaxRetriesSet /\ jtype \in {"incremental", "fullsync"}
+            /\ \/ (kill = FALSE /\ okAfter \in 0..3 /\ n = 1)
+               \/ (kill = TRUE /\ okAfter = 0 /\ n = 3 /\ page = 1)
 Next == UNCHANGED cvars
 Spec == Init /\ [][Next]_cvars
 
@@ -67,10 +72,12 @@ ReportedOnce == \A i, j \in 1..Len(Result.rep) : i # j => Result.rep[i] # Result
 StopsAtMax == (m > 0 /\ Cardinality(fail) >= m) <=> Result.stop
 NoLoss == \A i \in 1..n : (i < StopAt /\ i \notin fail) => \E k \in 1..Len(Result.del) : Result.del[k] = i
 BoundedReruns == Executions <= retries + 1
+NoRerunAfterKill == kill => Executions = 1
 
 CaseObs == [n |-> n, fail |-> fail, m |-> m, page |-> page, mode |-> Mode,
             delivered |-> Result.del, reported |-> Result.rep, outcome |-> Outcome, token |-> Token,
             retries |-> retries, okAfter |-> okAfter, executions |-> Executions, final |-> FinalOutcome,
+            kill |-> kill, jtype |-> jtype,
             \* a second execution of the same job with nothing new to read (the first one ran to the end):
             \* nothing is delivered or reported and the run is recorded as a success
             second |-> IF Result.stop THEN "n/a" ELSE "ok"]
